@@ -16,7 +16,7 @@ pub fn def() -> CheckDef {
         meta: CheckMeta {
             id: "C11",
             level: "fault_enumeration",
-            rule: "generated histories (1 in 4 with a free list spanning several pages) run in a worker process under the LD_PRELOAD shim; for a chosen target commit a dry run counts the I/O calls the commit issues on the database descriptor (every lseek, write, fsync), then one worker per fault is run with that call failing: EIO and ENOSPC for every call, plus for writes 'short write then error' (1, 100, 512 bytes transferred), plus a file-size limit (RLIMIT_FSIZE = current size, SIGXFSZ ignored) so that file extension and writes beyond the limit fail. Oracle in the worker: the faulted commit returns Err (a panic or abort is a failure); immediately afterwards, on the same handle, a reader sees exactly the pre- or the post-transaction state; the independent parser finds the file sound and equal to that state; DB::check passes; 3-6 further generated transactions on the same handle commit and match the model continued from the observed state with every commit verified; after reopen the same. Single faults are enumerated exhaustively per target commit; pairs are sampled: a first fault in the target commit and a second one (re-armed) in one of the next three commits on the same handle, each faulted commit judged the same way; plus structured pairs on the two header writes (torn inside the record, torn behind it, failing outright). Non-trivial = fault that fired after at least one write of the commit had succeeded. Distinct = (history, target, fault).",
+            rule: "generated histories (1 in 4 with a free list spanning several pages; in a third of them every writer, before and after the fault, begins while a short-lived reader is open) run in a worker process under the LD_PRELOAD shim; for a chosen target commit a dry run counts the I/O calls the commit issues on the database descriptor (every lseek, write, fsync), then one worker per fault is run with that call failing: EIO and ENOSPC for every call, plus for writes 'short write then error' (1, 100, 512 bytes transferred), plus a file-size limit (RLIMIT_FSIZE = current size, SIGXFSZ ignored) so that file extension and writes beyond the limit fail. Oracle in the worker: the faulted commit returns Err (a panic or abort is a failure); immediately afterwards, on the same handle, a reader sees exactly the pre- or the post-transaction state; the independent parser finds the file sound and equal to that state; DB::check passes; 3-6 further generated transactions on the same handle commit and match the model continued from the observed state with every commit verified; after reopen the same. Single faults are enumerated exhaustively per target commit; pairs are sampled: a first fault in the target commit and a second one (re-armed) in one of the next three commits on the same handle, each faulted commit judged the same way; plus structured pairs on the two header writes (torn inside the record, torn behind it, failing outright). Non-trivial = fault that fired after at least one write of the commit had succeeded. Distinct = (history, target, fault).",
             assumptions: &[
                 "faults are injected at the libc boundary (write, lseek64, fsync); fallocate is a raw syscall and is made to fail through RLIMIT_FSIZE instead",
                 "a fault makes that one call fail; the file system otherwise behaves (what was written before the fault stays written)",
@@ -93,6 +93,8 @@ fn run_worker_inner(case: &C11Case, path: &Path, rep: &mut WorkerReport) -> Resu
     quiet.fsck_after_commit = false;
     quiet.dbcheck_after_commit = false;
     quiet.dump_after_commit = false;
+    // a short-lived reader around every writer (open when the writer begins, closed before its commit)
+    quiet.reader_dance = case.history.dance;
     let db = open_db(cfg, path)?;
     let mut model = MBucket::default();
     let mut cs = CaseStats::default();
@@ -139,7 +141,7 @@ fn run_worker_inner(case: &C11Case, path: &Path, rep: &mut WorkerReport) -> Resu
         next = *t2 + 1;
     }
     // further transactions on the same handle, every commit verified, then reopen
-    let rest = HistoryCase { cfg: cfg.clone(), fresh_handles: false, txs: case.history.txs[next..].to_vec(), dance: 0 };
+    let rest = HistoryCase { cfg: cfg.clone(), fresh_handles: false, txs: case.history.txs[next..].to_vec(), dance: case.history.dance };
     let mut opts = RunOpts::standard(path.to_path_buf());
     opts.start_model = Some(observed);
     opts.keep_file = true;
@@ -383,6 +385,8 @@ pub fn fault_history(seed: u64) -> (HistoryCase, Vec<usize>) {
             Op::DeleteRun { b: (i * 104729) as u16, start: (i * 7001) as u16, n: 3 },
         ] });
     }
+    // in a third of the histories every writer (before and after the fault) begins while a reader is open
+    h.dance = if seed % 3 == 1 { 1 } else { 0 };
     // targets: an early commit (may need growth with a 4-page file) and a later one (page reuse)
     let n = h.txs.len();
     let t1 = 0usize;
